@@ -28,3 +28,13 @@ Theorem C16_edited_moov_len : forall (p : bytes) (kids : list node) (ops : list 
   puts_calc kids' = Ok b -> lens_calc kids' = Ok (N.of_nat (length b)).
 Proof. exact edited_moov_len. Qed.
 Print Assumptions C16_edited_moov_len.
+
+(* the tree the sanitizer itself serialises (MoovBox::parse + the accessor chain of every trak, then the in-place rewrite of the table
+   entries): every box keeps the size its parsed header declares, so the calculated header of every box IS the parsed one - the
+   assumption under which the plain model of Mp4/Box.v (C01-C05) writes the parsed headers back is a theorem *)
+Theorem C16_sanitizer_tree_keeps_headers : forall (p : bytes) (kids kids' : list node) (f g : N -> res N) (l : list unit),
+  moov_check p = Ok kids -> each_trak kids (shift_table f g) = Ok (kids', l) ->
+  puts_calc kids' = Ok (put_nodes kids') /\ lens_calc kids' = Ok (nodes_encoded_len kids') /\
+  nodes_encoded_len kids' = N.of_nat (length p).
+Proof. exact sanitizer_tree_keeps_headers. Qed.
+Print Assumptions C16_sanitizer_tree_keeps_headers.
